@@ -14,7 +14,7 @@ Import ListNotations.
 Definition sk (BL : list blk) : list (option nat * list string) := map (fun k => (k_parent k, k_names k)) BL.
 
 Lemma sk_nth BL i k : nth_error BL i = Some k -> nth_error (sk BL) i = Some (k_parent k, k_names k).
-Proof. intros H. unfold sk. apply (map_nth_error _ _ _ H). Qed.
+Proof. intros H. unfold sk. apply (map_nth_error (fun k => (k_parent k, k_names k)) _ _ H). Qed.
 
 Lemma sk_nth_inv BL i p ns :
   nth_error (sk BL) i = Some (p, ns) -> exists k, nth_error BL i = Some k /\ k_parent k = p /\ k_names k = ns.
@@ -67,7 +67,10 @@ Definition Inv (st : rs) : Prop :=
 Definition mono (st st' : rs) : Prop := forall m, und st m -> und st' m.
 
 Lemma Rep_mono st st' y : mono st st' -> Rep st y -> Rep st' y.
-Proof. intros M (c & u & H1 & H2 & H3 & H4). exists c, u. repeat split; auto; tauto. Qed.
+Proof.
+  intros M (c & u & H1 & H2 & H3 & H4 & H5). exists c, u.
+  split; [auto|]. split; [auto|]. split; [apply M; auto|]. split; auto.
+Qed.
 
 Section Look.
 Variable n : N.
@@ -148,9 +151,9 @@ Lemma lookup_inv : forall fuel st e,
 Proof.
   induction fuel as [|fu IH]; intros st e HI Hfu Hch.
   - destruct e as [b|]; [specialize (Hfu b eq_refl); lia|]. simpl.
-    destruct (useTop_inv st HI Hch) as (A & B & C). repeat split; auto; intros; apply C; auto.
+    destruct (useTop_inv st HI Hch) as (A & B & C). split; [exact A|]. split; [exact B|]. split; intros; apply C; auto.
   - destruct e as [b|]; simpl.
-    2:{ destruct (useTop_inv st HI Hch) as (A & B & C). repeat split; auto; intros; apply C; auto. }
+    2:{ destruct (useTop_inv st HI Hch) as (A & B & C). split; [exact A|]. split; [exact B|]. split; intros; apply C; auto. }
     pose proof HI as (I1 & I2 & I3 & I4 & I5 & I6 & I7).
     destruct (nth_error (blocks st) b) as [k|] eqn:Ek.
     2:{ split; [exact HI|]. split; [intros m; auto|]. split; [|discriminate].
